@@ -76,7 +76,8 @@ def handleSRT (op : String) (args impl : List String) : Verdict :=
       if tooLong doc then .unmodelled else
       -- int64 wrap-around is not modelled (`parseDuration` adds `time.Duration`s; from 2562048 hours on they wrap)
       let wraps := match SRT.read (docLines doc) with
-        | .ok s => s.items.any fun it => it.startAt > 9223372036854775807 || it.endAt > 9223372036854775807
+        | .ok s => s.items.any fun it => it.startAt > 9223372036854775807 || it.endAt > 9223372036854775807 ||
+                                        it.startAt < -9223372036854775808 || it.endAt < -9223372036854775808
         | _ => false
       if wraps then .unmodelled else
       match resStr (SRT.read (docLines doc)) with
